@@ -6,9 +6,15 @@ import numpy as np
 
 
 def _extract_index(layout: ak.contents.Content) -> list:
+    if isinstance(layout, awkward.contents.ListArray):
+        # views selected by an index array: bring them to the offsets form first
+        return _extract_index(layout.to_ListOffsetArray64(True))
+
     if isinstance(layout, awkward.contents.ListOffsetArray):
         offsets = layout.offsets.data
-        return [offsets[1:] - offsets[:-1]] + _extract_index(layout.content)
+        # a sliced view keeps the whole content: only the part reachable through the offsets counts
+        content = layout.content[offsets[0] : offsets[-1]]
+        return [offsets[1:] - offsets[:-1]] + _extract_index(content)
 
     if isinstance(layout, awkward.contents.RegularArray):
         return [layout.size] + _extract_index(layout.content)
@@ -20,7 +26,7 @@ def _extract_index(layout: ak.contents.Content) -> list:
         return []
 
     if isinstance(layout, awkward.contents.IndexedArray):
-        return _extract_index(layout.content)
+        return _extract_index(layout.project())
 
     if isinstance(layout, (awkward.contents.ByteMaskedArray, awkward.contents.BitMaskedArray)):
         return _extract_index(layout.content)
